@@ -79,15 +79,16 @@ SEARCHES = {
     "lifecycle": (["lifecycle", "{seed}", 300, 25], ["lifecycle", "{seed}", 4000, 40],
                   "random create/delete/publish histories over 2 topic names x 3 subscription names, incl. racing creates and held topic handles"),
     "order":     (["order", 40], ["order", 400], "2-4 concurrent publishers x 3 messages on a 2-thread runtime, 2 subscriptions; 4 OS threads racing to create 400 / 4000 absent topic names"),
-    "names":     (["names", 3], ["names", 5], "all strings = stem + suffix over {p,t,/,s,e-acute,-} up to the given suffix length, 24 stems"),
+    "names":     (["names", 3], ["names", 5], "all strings = stem + suffix over {p,t,/,s,e-acute,-} up to the given suffix length, 21 stems; 5 canonical stems + suffixes of up to 2 special characters (quotes, backslash, control, combining, space, %,#,?); identity of names; text of message ids for 13 x 19 (topic number, counter) pairs"),
     "rpc":       (["rpc"], ["rpc"], "15 scripted gRPC scenarios over a unix socket: pull limits and waiting, batch parsing, in-stream modack, streaming limits and control messages, namespace status codes, malformed fields, list walks and content identity, two parked pulls, HTTP push payload content, a 300-topic list walk, several consumers of one subscription (stream + unary pull + second subscription + delete), concurrent publishers into an acknowledging stream, a multi-id deadline extension, 150 rounds of a unary Pull racing a Publish on a 4-thread runtime, three StreamingPull streams sharing one subscription"),
     "tokens":    (["tokens", 22], ["tokens", 27], "page-token codec (src/api/page_token.rs mounted by path): encode/decode round trip for every offset below 2^22 (thorough: 2^27), every byte value at every byte position over 3 backgrounds, 200000 random 64-bit offsets; 200000 hostile strings never panic"),
+    "wakeup":    (["wakeup", 6], ["wakeup", 30], "manager level, paused clock: a parked consumer is woken although the consumer woken first abandoned its pull (6 / 30 rounds); 200 / 600 / 800 leases expiring together while 400 other requests arrive, 6 cycles each"),
     "paging":    (["paging", 7], ["paging", 12], "page walks over 0,1,2,n resources in 2 projects, 11 page sizes x 6 start offsets, 3 list operations"),
 }
 BY_PROP = {
-    "C01": ["history", "lifecycle", "rpc"], "C02": ["history", "rpc"], "C03": ["history", "rpc"], "C04": ["history", "rpc"], "C05": ["history", "rpc"],
-    "C08": ["order", "history", "rpc"], "C09": ["lifecycle", "rpc"], "C10": ["lifecycle", "order", "rpc"], "C11": ["lifecycle", "history", "rpc"],
-    "C13": ["paging", "tokens", "lifecycle", "rpc"], "C15": ["history", "rpc"], "C17": ["names", "paging", "tokens", "rpc"], "C18": ["names", "rpc"],
+    "C01": ["history", "lifecycle", "wakeup", "rpc"], "C02": ["history", "rpc"], "C03": ["history", "rpc"], "C04": ["history", "wakeup", "rpc"], "C05": ["history", "rpc"],
+    "C08": ["order", "history", "rpc"], "C09": ["lifecycle", "names", "rpc"], "C10": ["lifecycle", "order", "rpc"], "C11": ["lifecycle", "history", "rpc"],
+    "C13": ["paging", "tokens", "lifecycle", "rpc"], "C15": ["history", "wakeup", "rpc"], "C17": ["names", "paging", "tokens", "rpc"], "C18": ["names", "rpc"],
 }
 
 
@@ -161,6 +162,8 @@ def replay(path, HERE, REPO):
         elif w.get("kind") == "rpc":
             ws, out = _run_all(binary, ["rpc"], 300)
             got = next((x for x in ws if x.get("scenario") == w.get("scenario")), None)
+        elif w.get("kind") == "wakeup":
+            got, out = _run(binary, ["wakeup", 30], 300)
         elif w.get("kind") == "tokens":
             got, out = _run(binary, ["tokens", 22], 300)
         elif w.get("kind", "").startswith("name"):
